@@ -389,6 +389,8 @@ impl RefCountTable {
 			)))?;
 		}
 		log::trace!(target: "parity-db", "{}: Enacted ref count chunk {}", self.id, index);
+		#[cfg(parity_db_verif)]
+		crate::verif::emit("TabWrite", &[3, self.id.as_u16() as u64, index, 0]);
 		Ok(())
 	}
 
